@@ -195,11 +195,32 @@ fn pseudo_rw(class: &str, name: &str) -> Option<bool> {
     }
 }
 
+/// document-level options of the printer
+#[derive(Clone, Copy, Debug, Default, PartialEq)]
+pub struct DocOpts {
+    /// `import qmluic.QtWidgets 6.2`: the translator warns "import version is ignored"
+    pub import_version: bool,
+}
+
+impl DocOpts {
+    pub fn header(&self) -> &'static str {
+        if self.import_version {
+            "import qmluic.QtWidgets 6.2\n\n"
+        } else {
+            "import qmluic.QtWidgets\n\n"
+        }
+    }
+}
+
 impl Doc {
+    pub fn build(root: &Obj, records: &[Record], faults: &[Fault]) -> Doc {
+        Doc::build_opts(root, records, faults, DocOpts::default())
+    }
+
     /// Prints the tree and classifies every binding.  `records` is the generator's ledger; `faults` describe the
     /// bindings that were planted on purpose (matched by object index + lhs + rhs, last occurrence).
-    pub fn build(root: &Obj, records: &[Record], faults: &[Fault]) -> Doc {
-        let mut src = String::from("import qmluic.QtWidgets\n\n");
+    pub fn build_opts(root: &Obj, records: &[Record], faults: &[Fault], opts: DocOpts) -> Doc {
+        let mut src = String::from(opts.header());
         let mut objs = vec![];
         let mut ranges = vec![];
         print_rec(root, &mut src, 0, None, &mut objs, &mut ranges);
@@ -238,7 +259,7 @@ impl Doc {
                     spec.konst = match &f {
                         Fate::Dynamic => Konst::Dyn,
                         Fate::Callback { .. } => Konst::Dyn,
-                        Fate::Const { tag, text } if tag == "separator" => Konst::Ok((text == "true") as u64),
+                        Fate::Const { tag, text } if tag == "separator" || tag == "header-const" => Konst::Ok((text == "true") as u64),
                         _ => Konst::Ok(1),
                     };
                     match &kind {
@@ -688,7 +709,63 @@ pub fn header_names(doc: &Doc, b: &Binding) -> Option<(String, Option<String>)> 
 /// evaluated-constant flags as the read-only hook reports them in phase "final": (object name, attaching class, path)
 pub type Flags = HashMap<(String, Option<String>, String), bool>;
 
+/// In-process translation which also records what the library's own `Diagnostics::has_error()` says (the predicate
+/// `generate_ui_file` uses to decide whether outputs are written); `Translation::has_error()` is the harness' own count.
+pub fn translate_checked(tm: &TypeMap, src: &str, mode: Mode) -> (Translation, bool) {
+    use qmluic::diagnostic::{DiagnosticKind, Diagnostics};
+    use qmluic::qmldoc::UiDocument;
+    use qmluic::qtname::FileNameRules;
+    use qmluic::uigen::{self, BuildContext, XmlWriter};
+    let doc = UiDocument::parse(src, "MyType", None);
+    let mut t = Translation::default();
+    if doc.has_syntax_error() {
+        t.syntax_errors = doc.collect_syntax_errors().len().max(1);
+        return (t, true);
+    }
+    let ctx = BuildContext::prepare(tm, FileNameRules::default(), mode.handling()).unwrap();
+    let mut diags = Diagnostics::new();
+    let r = uigen::build(&ctx, &doc, &mut diags);
+    let lib_has_error = diags.has_error();
+    t.diags = diags
+        .iter()
+        .map(|d| env::Diag { is_error: d.kind() == DiagnosticKind::Error, start: d.byte_range().start, end: d.byte_range().end, message: d.message().to_owned() })
+        .collect();
+    if let Some((form, sup)) = r {
+        t.built = true;
+        let mut buf = Vec::new();
+        form.serialize_to_xml(&mut XmlWriter::new_with_indent(&mut buf, b' ', 1)).unwrap();
+        t.ui = Some(String::from_utf8(buf).unwrap());
+        t.header = sup.map(|s| {
+            let mut b = Vec::new();
+            s.write_header(&mut b).unwrap();
+            String::from_utf8(b).unwrap()
+        });
+    }
+    (t, lib_has_error)
+}
+
+/// `Some(message)` if the library's `has_error()` disagrees with the recorded diagnostics
+pub fn has_error_mismatch(t: &Translation, lib_has_error: bool) -> Option<String> {
+    if t.syntax_errors == 0 && lib_has_error != t.has_error() {
+        let e = t.diags.iter().filter(|d| d.is_error).count();
+        Some(format!("Diagnostics::has_error() = {lib_has_error} with {e} error(s) and {} warning(s) recorded", t.diags.len() - e))
+    } else {
+        None
+    }
+}
+
+/// would `generate_ui_file` write outputs?
+pub fn lib_accepted(t: &Translation, lib_has_error: bool) -> bool {
+    t.syntax_errors == 0 && t.built && !lib_has_error
+}
+
+#[allow(dead_code)]
 pub fn translate_with_flags(tm: &TypeMap, src: &str, mode: Mode) -> (Translation, Flags) {
+    let (t, f, _) = translate_with_flags_checked(tm, src, mode);
+    (t, f)
+}
+
+pub fn translate_with_flags_checked(tm: &TypeMap, src: &str, mode: Mode) -> (Translation, Flags, bool) {
     use std::cell::RefCell;
     use std::rc::Rc;
     let flags: Rc<RefCell<Flags>> = Rc::new(RefCell::new(HashMap::new()));
@@ -698,11 +775,11 @@ pub fn translate_with_flags(tm: &TypeMap, src: &str, mode: Mode) -> (Translation
             f2.borrow_mut().insert((ev.object_name.to_owned(), ev.attached_class.clone(), ev.path.clone()), ev.evaluated_constant);
         }
     }));
-    let t = std::panic::catch_unwind(std::panic::AssertUnwindSafe(|| env::translate(tm, src, "MyType", mode)));
+    let t = std::panic::catch_unwind(std::panic::AssertUnwindSafe(|| translate_checked(tm, src, mode)));
     qmluic::uigen::verif_hook::clear_observer();
     let out = flags.borrow().clone();
     match t {
-        Ok(t) => (t, out),
+        Ok((t, lib)) => (t, out, lib),
         Err(e) => std::panic::resume_unwind(e),
     }
 }
@@ -855,7 +932,7 @@ pub fn real_answer(tm: &TypeMap, req: &Sexp) -> Sexp {
         _ => Mode::Omit,
     };
     let t = decode_tables(&args[2..]);
-    let (tr, flags) = translate_with_flags(tm, &t.src, mode);
+    let (tr, flags, lib_has_error) = translate_with_flags_checked(tm, &t.src, mode);
     if tr.syntax_errors > 0 {
         return node("syntax-error", vec![]);
     }
@@ -943,7 +1020,8 @@ pub fn real_answer(tm: &TypeMap, req: &Sexp) -> Sexp {
         .collect();
     ds.sort();
     let nums = |tag: &str, s: &BTreeSet<usize>| node(tag, s.iter().map(|n| num(*n)).collect());
-    let accepted = tr.accepted();
+    // acceptance as `generate_ui_file` decides it: the library's own has_error()
+    let accepted = lib_accepted(&tr, lib_has_error);
     node(
         "result",
         vec![
